@@ -46,9 +46,6 @@ class C05Machine(M.MCMachine):
         # the user's template object as it was BEFORE the driver was constructed
         self.template = self.info["template"]
         self.template_snap, self.template_pos = self.info["template_before"]
-        if S.diff_snapshots(self.template_snap, S.snapshot_atoms(self.template)) or self.template.positions.tobytes() != self.template_pos:
-            self.fail("template-modified:construction", "constructing the GrandCanonical driver modified the user's exchange template")
-            return
         self.n_model = int(self.mc.number_of_exchange_particles)
         self.accepted_exchanges = 0
         self.refused_exchanges = 0
@@ -68,6 +65,8 @@ class C05Machine(M.MCMachine):
                 dl = l.get("default_label", "unset")
                 if dl != "unset":
                     self.labels.add(f"default_label:{dl}")
+        if S.diff_snapshots(self.template_snap, S.snapshot_atoms(self.template)) or self.template.positions.tobytes() != self.template_pos:
+            self.fail("template-modified:construction", "constructing the GrandCanonical driver modified the user's exchange template")
 
     def label_moves(self):
         out, seen = [], set()
